@@ -19,6 +19,111 @@ PER_FILE_FIELDS = ['minus_file', 'plus_file', 'minus_file_event', 'plus_file_eve
                    'handled_diff_header_header_line_file_pair', 'diff_line', 'state']
 
 
+def reset_rule(F, res, resetters, prefix, fields):
+    # ---- RESET
+    n = ok = 0
+    for (p, rbb) in resetters:
+        for fld in fields:
+            n += 1
+            wbs = [w[0] for w in Ru.field_writes(F, p, SM, fld) if any(f == fld for _, f in w[1])]
+            S = F.cfg(p)
+            from ..facts import reach
+            before = rbb in reach(S, 0, avoid=set(wbs) - {rbb}) if rbb not in wbs else False
+            after = bool(Ru.must_pass(F, p, S.get(rbb, []), set(wbs) - {rbb})) if rbb not in wbs else False
+            if rbb in wbs or not (before and after):
+                ok += 1
+            else:
+                res.violate('RESET', 'fn=%s;field=%s' % (p, fld),
+                            'a path through the per-file reset on a `diff ` line leaves `%s` as it was for the previous file section' % fld,
+                            where=F.bodies[p]['mir']['span']['at'])
+    res.rule(prefix + '.RESET', n, len(fields), 'per-file fields x reset handlers: each assigned on every path through the reset', discharged=ok, samples=list(fields))
+
+
+def reset_order_rule(F, res, resetters, boundary, prefix):
+    # ---- RESET-ORDER: whatever flushes the previous section's pending output must run before the per-file fields it reads
+    # are overwritten with the new section's values
+    def reads_field(fn, fld, depth=0, seen=None):
+        seen = seen if seen is not None else set()
+        if fn in seen or fn not in F.fn_bodies or depth > 4:
+            return False
+        seen.add(fn)
+        for blk in F.blocks(fn):
+            if blk['cleanup']:
+                continue
+            places = []
+            for st in blk['s']:
+                if st[0] == 'assign':
+                    rv = st[2]
+                    for x in rv[1:]:
+                        if isinstance(x, dict):
+                            places.append(x.get('copy') or x.get('move') or (x if 'l' in x else None))
+                        elif isinstance(x, list):
+                            for y in x:
+                                if isinstance(y, dict):
+                                    places.append(y.get('copy') or y.get('move') or (y if 'l' in y else None))
+            t = blk['t']
+            if t[0] == 'call':
+                for a in t[1]['args']:
+                    places.append(a.get('copy') or a.get('move'))
+            if t[0] == 'switch':
+                places.append(t[1].get('copy') or t[1].get('move'))
+            for pl in places:
+                if pl and any(pr[0] == 'field' and pr[2] == SM and pr[3] == fld for pr in pl['p']):
+                    return True
+        for i, c in F.calls(fn):
+            cal = callee_of(c)
+            if cal in F.fn_bodies and any('StateMachine' in F.bodies[cal]['mir']['locals'][k] for k in range(1, F.bodies[cal]['mir']['arg_count'] + 1)):
+                if reads_field(cal, fld, depth + 1, seen):
+                    return True
+        return False
+    no = oko = 0
+    from ..facts import reach as _reach
+    for (p, rbb) in resetters:
+        S = F.cfg(p)
+        for fld in PER_FILE_FIELDS:
+            if fld == 'state':
+                continue
+            wbs = [w[0] for w in Ru.field_writes(F, p, SM, fld) if any(f == fld for _, f in w[1])]
+            for i, c in F.calls(p):
+                cal = callee_of(c)
+                if cal not in F.fn_bodies or cal not in boundary or cal == p:
+                    continue
+                if not any('StateMachine' in F.bodies[cal]['mir']['locals'][k] for k in range(1, F.bodies[cal]['mir']['arg_count'] + 1)):
+                    continue
+                if not reads_field(cal, fld):
+                    continue
+                # only flushers: calls that can write output
+                if cal not in F.reverse_reaching({q for q in F.fn_bodies if q.endswith('write_generic_diff_header_header_line')}):
+                    continue
+                no += 1
+                early = [w for w in wbs if i in _reach(S, S.get(w, []))]
+                if early:
+                    res.violate('RESET-ORDER', 'fn=%s;field=%s;before=%s' % (p, fld, cal.split('::')[-1]),
+                                '`%s` is overwritten with the new section\'s value before %s has flushed the previous section\'s pending output, which reads it: '
+                                'the previous section is reported with the next section\'s data' % (fld, cal.split('::')[-1]), where=F.span_of_call(c))
+                else:
+                    oko += 1
+    res.rule(prefix + '.RESET-ORDER', no, 3, 'per-file fields read by the pending-output flush called from the reset handler; none overwritten before that call', discharged=oko)
+
+
+def find_resetters(F):
+    resetters = []
+    for p in F.fn_bodies:
+        for (bb, chain, kind, payload) in Ru.field_writes(F, p, SM, 'handled_diff_header_header_line_file_pair'):
+            if kind != 'assign':
+                continue
+            rv = payload[2]
+            is_none = rv[0] == 'agg' and rv[1][0] == 'adt' and rv[1][3] == 'None'
+            if rv[0] == 'use':
+                is_none = any(r[0] == 'agg' and r[1][0] == 'adt' and r[1][3] == 'None' for r in F.trace(p, rv[1]))
+            if is_none:
+                resetters.append((p, bb))
+    boundary = set()
+    for p, _ in resetters:
+        boundary |= F.reachable_from([p])
+    return resetters, boundary
+
+
 def run(F, tier, res):
     from .. import extract
     _, h, _ = extract.facts_path()
@@ -58,23 +163,8 @@ def run(F, tier, res):
     res.rule('C10.BOUNDARY', nb + R['N']['summary']['exit_states'], 8,
              'direct-write sites inside the section-boundary functions (%d) + abstract end-of-input states (%d)' % (nb, R['N']['summary']['exit_states']),
              samples=sorted(x.split('::')[-1] for x in boundary)[:6])
-    # ---- RESET
-    n = ok = 0
-    for (p, rbb) in resetters:
-        for fld in PER_FILE_FIELDS:
-            n += 1
-            wbs = [w[0] for w in Ru.field_writes(F, p, SM, fld) if any(f == fld for _, f in w[1])]
-            S = F.cfg(p)
-            from ..facts import reach
-            before = rbb in reach(S, 0, avoid=set(wbs) - {rbb}) if rbb not in wbs else False
-            after = bool(Ru.must_pass(F, p, S.get(rbb, []), set(wbs) - {rbb})) if rbb not in wbs else False
-            if rbb in wbs or not (before and after):
-                ok += 1
-            else:
-                res.violate('RESET', 'fn=%s;field=%s' % (p, fld),
-                            'a path through the per-file reset on a `diff ` line leaves `%s` as it was for the previous file section' % fld,
-                            where=F.bodies[p]['mir']['span']['at'])
-    res.rule('C10.RESET', n, 8, 'per-file fields x reset handlers: each assigned on every path through the reset', discharged=ok, samples=PER_FILE_FIELDS)
+    reset_rule(F, res, resetters, 'C10', PER_FILE_FIELDS)
+    reset_order_rule(F, res, resetters, boundary, 'C10')
     # ---- DETERMINISM
     mains = [p for p in F.fn_bodies if p == 'main']
     roots = mains or None
